@@ -448,27 +448,26 @@ func cmdCheck(args []string) {
 		violations++
 		lines = append(lines, fmt.Sprintf("VIOLATION property=%s replay=%s obligation=<vacuity> no obligations generated no-failing-input-found", *prop, expectPath))
 	}
-	// reachability of each function's last obligation point (contradictory assumptions)
+	// reachability of each function's normal exit under all assumptions made on
+	// the way (a contradictory requires / invariant / callee contract would make
+	// everything below it pass vacuously)
 	reach := map[string]string{}
-	lastOf := map[string]*Obl{}
+	seenVC := map[*VC]bool{}
 	for _, o := range cr.obls {
-		lastOf[o.Func+"|"+o.Name[:6]] = o
-	}
-	var lks []string
-	for k := range lastOf {
-		lks = append(lks, k)
-	}
-	sort.Strings(lks)
-	for _, k := range lks {
-		o := lastOf[k]
-		r := CheckSat(o.ReachQuery(), 10)
-		reach[o.Name] = r
+		vc := o.vc
+		if seenVC[vc] || vc.exitGuard == "" {
+			continue
+		}
+		seenVC[vc] = true
+		eo := &Obl{vc: vc, Prefix: vc.exitPrefix, Guard: vc.exitGuard, Goal: "true"}
+		r := CheckSat(eo.ReachQuery(), 10)
+		reach[o.Name[:6]+" "+vc.Func] = r
 		if r == "unsat" {
 			violations++
 			rp := filepath.Join(*verif, "replays", fmt.Sprintf("%s-vacuity.json", *prop))
-			js, _ := json.MarshalIndent(map[string]interface{}{"property": *prop, "kind": "vacuity: assumptions contradictory at " + o.Name}, "", " ")
+			js, _ := json.MarshalIndent(map[string]interface{}{"property": *prop, "kind": "vacuity: assumptions contradictory at the exit of " + vc.Func}, "", " ")
 			os.WriteFile(rp, js, 0644)
-			lines = append(lines, fmt.Sprintf("VIOLATION property=%s replay=%s obligation=<vacuity> assumptions are contradictory at %s no-failing-input-found", *prop, rp, stripConfig(o.Name)))
+			lines = append(lines, fmt.Sprintf("VIOLATION property=%s replay=%s obligation=<vacuity> assumptions are contradictory at the exit of %s no-failing-input-found", *prop, rp, vc.Func))
 		}
 	}
 	vacuity["reachability"] = reach
@@ -529,7 +528,7 @@ func writeReplay(path, prop string, o *Obl, cr *checkRun) bool {
 		"replayed":      false,
 	}
 	replayed := false
-	if o.Result == "sat" {
+	if strings.HasPrefix(o.Result, "sat") {
 		if out, ok := tryReplay(cr, o); out != "" {
 			rec["replay_output"] = out
 			rec["replayed"] = ok
